@@ -36,7 +36,8 @@ RULE = ("case = (tlslite role, version 1.0-1.3, suite in (tlslite "
 ASSUMPTIONS = [
     "OpenSSL's randomness cannot be seeded: the configuration is the "
     "replay unit",
-    "out of domain (stdlib ssl API): SSLv3, SRP, external PSK, KeyUpdate, "
+    "out of domain (stdlib ssl API): SSLv3, SRP, external PSK, KeyUpdate "
+    "initiated by OpenSSL, "
     "record_size_limit, heartbeat, TLS 1.3 CCM suites, anonymous suites",
     "zero-length application records under NULL-cipher suites are not sent "
     "to OpenSSL (OpenSSL 3.0 answers bad_record_mac and never emits such "
@@ -249,7 +250,41 @@ def cross(case, s, fwd, rev, role, labels, resume=False):
         gen = sc.client_gen(conn, o)
     else:
         gen = sc.server_gen(conn, tls_opts("s", case, s))
-    exc, fin = op.run_handshake(gen, oend, link, role)
+    unpatch = None
+    if case.get("lead0") and s.kx == "dhe" and role == "c" and not resume:
+        # choose the client's DH exponent so that the shared secret starts
+        # with a zero byte (1 in 256 in the wild): TLS <= 1.2 strips it
+        import tlslite.keyexchange as kxm
+        orig_p = kxm.ADHKeyExchange.processServerKeyExchange
+        orig_r = kxm.FFDHKeyExchange.get_random_private_key
+        box = {}
+
+        def proc(self, srvPublicKey, ske):
+            box["ys"], box["p"] = ske.dh_Ys, ske.dh_p
+            return orig_p(self, srvPublicKey, ske)
+
+        def rnd(self):
+            x = orig_r(self)
+            if "ys" in box:
+                nb = (box["p"].bit_length() + 7) // 8
+                for _ in range(5000):
+                    if pow(box["ys"], x, box["p"]).bit_length() <= \
+                            8 * (nb - 1):
+                        labels.append("dh-secret-leading-zero")
+                        break
+                    x += 1
+            return x
+        kxm.ADHKeyExchange.processServerKeyExchange = proc
+        kxm.FFDHKeyExchange.get_random_private_key = rnd
+
+        def unpatch():
+            kxm.ADHKeyExchange.processServerKeyExchange = orig_p
+            kxm.FFDHKeyExchange.get_random_private_key = orig_r
+    try:
+        exc, fin = op.run_handshake(gen, oend, link, role)
+    finally:
+        if unpatch:
+            unpatch()
     if exc is not None or not oend.done:
         return bad("interop-handshake-fails:" + where,
                    "tlslite %s: %s; openssl: %s" % (
@@ -350,6 +385,53 @@ def cross(case, s, fwd, rev, role, labels, resume=False):
     if bytes(got) != d2:
         return bad("interop-data-from-openssl-differs:" + where,
                    "%d of %d bytes" % (len(got), len(d2)), labels=labels)
+    if v == (3, 4) and case.get("ku", True):
+        # several KeyUpdates from the tlslite side (OpenSSL follows, and
+        # answers the ones that ask for it), data after each
+        for i in range(3):
+            outs, _ = drive({role: conn.send_keyupdate_request(i % 2)},
+                            link, on_stall="leave")
+            if not outs[role].ok:
+                return bad("interop-keyupdate-fails:" + where,
+                           repr(outs[role]), labels=labels)
+            dk = prg(b"ku%d" % i, 1500)
+            outs, _ = drive({role: conn.writeAsync(dk)}, link,
+                            on_stall="leave")
+            got, err = oend.read_available()
+            if got != dk or (err is not None and err != "eof"):
+                return bad("interop-data-after-keyupdate:to-openssl:" + where,
+                           "KeyUpdate %d: %d of %d bytes, err %r" % (
+                               i + 1, len(got), len(dk), err), labels=labels)
+            try:
+                oend.write(dk[::-1])
+            except (ssl.SSLError, OSError) as e:
+                return bad("interop-openssl-write-fails:" + where, repr(e),
+                           labels=labels)
+            link.pump()
+            back = bytearray()
+            for _ in range(50):
+                if len(back) >= len(dk):
+                    break
+                g = conn.readAsync(len(dk) - len(back), 1)
+                outs, _ = drive({role: g}, link, on_stall="leave")
+                o = outs[role]
+                if o.state == "done" and o.value:
+                    back += o.value
+                    continue
+                if o.state == "blocked":
+                    g.close()
+                    oend._pump_out()
+                    link.pump()
+                    if not link.inp[role].q:
+                        break
+                    continue
+                return bad("interop-read-fails:" + where, repr(o),
+                           labels=labels)
+            if bytes(back) != dk[::-1]:
+                return bad("interop-data-after-keyupdate:from-openssl:" +
+                           where, "KeyUpdate %d: %d of %d bytes" % (
+                               i + 1, len(back), len(dk)), labels=labels)
+        labels.append("keyupdates")
     # keep sessions for a resumption attempt
     if role == "c":
         case["_tls_session"] = conn.session
@@ -405,6 +487,17 @@ def explicit(tier, seed):
             yield {"role": role, "suite": sid, "ver": list(v), "key": key,
                    "sizes": [100, 20000], "client_auth": False,
                    "resume": (k % 4 == 0)}
+    # DHE with a shared secret that starts with a zero byte
+    done = set()
+    for sid, v, key in m:
+        s = iana.SUITES[sid]
+        if s.tls13 or s.kx != "dhe" or (tuple(v), s.kind) in done or \
+                key not in ("rsa", "dsa"):
+            continue
+        done.add((tuple(v), s.kind))
+        yield {"role": "c", "suite": sid, "ver": list(v), "key": key,
+               "sizes": [100, 3000], "client_auth": False, "resume": False,
+               "lead0": True}
     # client authentication and HelloRetryRequest, per version and role
     seen = set()
     for sid, v, key in m:
